@@ -15,6 +15,7 @@ import (
 	"os/exec"
 	"path/filepath"
 	"runtime"
+	"runtime/pprof"
 	"sort"
 	"strconv"
 	"strings"
@@ -217,6 +218,12 @@ func main() {
 	o := parseOpts(os.Args[2:])
 	scratchRoot = o.scratch
 	setTZ(o.seed)
+	if pf := os.Getenv("VERIF_CPUPROFILE"); pf != "" { // debugging aid
+		if f, err := os.Create(pf); err == nil {
+			pprof.StartCPUProfile(f)
+			defer pprof.StopCPUProfile()
+		}
+	}
 	switch os.Args[1] {
 	case "coord":
 		os.Exit(coord(o))
